@@ -237,7 +237,8 @@ PROPS = {
     ),
     "C04": dict(
         modules=["Fuota.Props.C04", "Fuota.Props.C06c"],
-        suites=[dict(name="d5w", cfg="matrix", keys=["res", "ops", "bad", "s0", "s1", "s2", "s3", "s4", "s5"])],
+        suites=[dict(name="d5w", cfg="matrix", keys=["res", "ops", "bad", "s0", "s1", "s2", "s3", "s4", "s5"]),
+                dict(name="d5t", cfg="matrix", keys=["res", "ops", "bad", "s0", "s1", "s2", "s3", "s4", "s5"])],
         rule="per generated session: power loss before / during (torn: byte prefix and partially programmed byte) "
              "mutating operation k of operation j, for start, fragments (incl. back-substitution), the final mark, and "
              "then inside the bootloader / application marks, recovery (remediation), cancel-all and a start-over; after "
